@@ -5,6 +5,7 @@
 (*               driver in one of the four formats, with some wrapping     *)
 (*  "roundtrip": [n, M, fmt, tokens, loaded, name_ok, sym_in, sym_out]     *)
 (*               text produced by Instance.to_stream, parsed back          *)
+(*  "scaled"   : [what, n, fmt, M, tokens, bscale, loadedB, ok, div_ok]     *)
 (*  "coords"   : [ewt, sc, pts, loaded]  points scaled by sc               *)
 (*  "tour"     : [n, tour, edges, opt]   a shipped optimal tour, the loaded *)
 (*               weights along it, and the documented optimum              *)
@@ -46,7 +47,20 @@ Tour(c) ==
   ELSE IF Len(c.edges) # c.n THEN {"driver-bad-edges"}
   ELSE IF SumTo(c.edges, c.n) # c.opt THEN {"tour-length-not-documented-optimum"} ELSE {}
 
+\* weights far beyond 32 bits (the library admits up to 10^12): the file holds scale * (the tokens of a small matrix
+\* M in format fmt); what is loaded must be scale * M entry by entry (BigNat).  what = "explicit": tokens written by
+\* the driver; what = "roundtrip": tokens written by Instance.to_stream for the instance built from scale * M
+\* (divided by the scale again; div_ok = 0 if a written token was not a multiple of the scale)
+Scaled(c) ==
+  (IF c.ok # 1 THEN {"loader-rejects-valid-text:" \o c.fmt \o "(large weights)"}
+   ELSE IF c.fmt \notin Formats THEN {"writer-unknown-format"}
+   ELSE (IF c.div_ok # 1 \/ c.tokens # TokensOf(c.fmt, c.M)
+         THEN {IF c.what = "explicit" THEN "driver-bad-tokens" ELSE "written-tokens-not-in-format:" \o c.fmt} ELSE {})
+        \cup (IF c.loadedB # [i \in 1..c.n |-> [j \in 1..c.n |-> BMul(c.bscale, BOfNat(c.M[i][j]))]]
+              THEN {IF c.what = "explicit" THEN "explicit-format:" \o c.fmt \o "(large weights)" ELSE "write-read-matrix(large weights)"}
+              ELSE {}))
 Verdict(c) == CASE c.kind = "explicit" -> Explicit(c) [] c.kind = "roundtrip" -> RoundTrip(c)
+                [] c.kind = "scaled" -> Scaled(c)
                 [] c.kind = "coords" -> Coords(c) [] c.kind = "tour" -> Tour(c)
 
 Init == tid = 0
